@@ -24,10 +24,14 @@ pub enum Bin {
 
 impl Bin {
     pub fn path(self) -> PathBuf {
-        PathBuf::from(match self {
-            Bin::Debug => "/verif/.build/xt/debug/xt",
-            Bin::Release => "/verif/.build/xt/release/xt",
-        })
+        PathBuf::from(format!(
+            "{}/.build/xt/{}/xt",
+            crate::runner::verif_root(),
+            match self {
+                Bin::Debug => "debug",
+                Bin::Release => "release",
+            }
+        ))
     }
     pub fn name(self) -> &'static str {
         match self {
@@ -92,7 +96,7 @@ impl Scratch {
     pub fn new(tag: &str) -> Scratch {
         static N: std::sync::atomic::AtomicU64 = std::sync::atomic::AtomicU64::new(0);
         let n = N.fetch_add(1, std::sync::atomic::Ordering::SeqCst);
-        let dir = PathBuf::from(format!("/verif/.build/tmp/cli-{}-{}-{}", std::process::id(), tag, n));
+        let dir = PathBuf::from(format!("{}/.build/tmp/cli-{}-{}-{}", crate::runner::verif_root(), std::process::id(), tag, n));
         let _ = std::fs::remove_dir_all(&dir);
         std::fs::create_dir_all(&dir).expect("create scratch dir");
         Scratch { dir }
@@ -152,6 +156,14 @@ pub fn run_xt_limit(bin: Bin, args: &[OsString], cwd: &Path, stdin: StdinSpec, s
     let mut cmd = Command::new(bin.path());
     cmd.args(args).current_dir(cwd).stderr(Stdio::piped());
     cmd.env_clear();
+    // never leave an xt process behind when the harness itself is killed
+    unsafe {
+        use std::os::unix::process::CommandExt;
+        cmd.pre_exec(|| {
+            libc::prctl(libc::PR_SET_PDEATHSIG, libc::SIGKILL);
+            Ok(())
+        });
+    }
     match &stdin {
         StdinSpec::Null => {
             cmd.stdin(Stdio::null());
